@@ -153,16 +153,20 @@ PROPS = {
     "C18": {
         "theorems": [("Mc.Props.C18", "Mc.C18." + t) for t in ["inv_init", "inv_step", "C18_invariant", "C18_refcount", "C18_fresh_start", "C18_share", "C18_close_not_last",
                      "C18_close_last", "C18_replay_on_add", "C18_event_delivery", "C18_silent_after_remove", "C18_isolation"]],
-        "streams": [{"pkg": "pkg/dynamic/informer", "test": "TestVerifInformer", "shards": 16, "n_quick": 160, "n_thorough": 1600, "thorough_seeds": 2, "nontrivial": ["delivered"]}],
+        "streams": [{"pkg": "pkg/dynamic/informer", "test": "TestVerifInformer", "shards": 16, "n_quick": 160, "n_thorough": 1600, "thorough_seeds": 2, "nontrivial": ["delivered"]},
+                    {"pkg": "pkg/dynamic/informer", "test": "TestVerifInformerResync", "shards": 8, "n_quick": 16, "n_thorough": 160, "thorough_seeds": 2, "nontrivial": ["removed-mid-round"]}],
         "nontrivial": ["delivered"],
         "rule": "operation sequences (6-17 operations: subscribe, close, add handler with or without its own resync period, add handler while another goroutine makes an outside write "
                 "(the new handler's replay is held open so that the write lands inside AddEventHandler), remove handlers, outside create/update/delete of an object) "
                 "over two resources executed on the real SharedInformerFactory against the simulated API server (real LIST/WATCH); after each operation the deliveries per handler, "
                 "the LIST requests and watch cancellations seen by the server and the factory's reference counts are recorded, compared with the model step by step and judged by "
-                "the history specification; non-trivial = some handler received a delivery; distinct = distinct (initial contents, operations) text",
+                "the history specification; non-trivial = some handler received a delivery; distinct = distinct (initial contents, operations) text; "
+                "resync stream (observation, no model): a handler with a private resync period of 20-50 ms over 15-35 cached objects is removed (RemoveEventHandlers or Close) in the "
+                "middle of one of its rounds; after the call returned its delivery count must not grow, and the other subscriber must have received the whole cache",
         "trusted_base": TB_COMMON + ["simulated API server LIST/WATCH (harness/verifsim/sim.go); client-go SharedIndexInformer and reflector (modelled: cache = server contents once synced)",
                                      "waiting is expectation-guided (until every registered handler got the event, 5 s ceiling) plus a 25 ms settle window for stray deliveries"],
-        "assumptions": ["every subscription is closed at most once and handlers are added through open subscriptions", "per-handler resync timers never fire within a scenario (periods of minutes)"],
+        "assumptions": ["every subscription is closed at most once and handlers are added through open subscriptions",
+                        "per-handler resync timers never fire within a scenario of the modelled stream (periods of minutes); the private resync goroutine is exercised by the resync stream only"],
     },
     "C20": {
         "theorems": [("Mc.Props.C20", "Mc.C20." + t) for t in ["inv_init", "C20_failed_construction_net_zero", "inv_reconcile", "C20_no_leak", "C20_all_stopped_no_subs",
